@@ -283,13 +283,13 @@ PROGFUZZ = {
     ),
 }
 
-def build_ws(ws, prop, batches):
+def build_ws(ws, prop, batches, big=False):
     """Builds the batch workspace. If some batch crates do not compile (possible only when the tree under test changed the
     macro or the library), the programs with error diagnostics are returned as compile failures, the failing batches are
     dropped from the runner and the rest is built and run."""
     # large workspaces (thorough tiers) are built with fewer parallel jobs: a compiler process of one of their crates can
     # take 8-12 GB, sixteen of them at once do not fit into the machine's memory
-    jobs = ["-j", "6"] if (batches if isinstance(batches, int) else len(batches)) > 24 else []
+    jobs = ["-j", "6"] if big else []
     pr = sh(["cargo", "build", "-q"] + jobs, cwd=ws, check=False)
     if pr.returncode == 0:
         return []
@@ -476,7 +476,7 @@ def progfuzz(prop, tier, seed, replay=None):
             cur = os.path.join(d, "Cargo.toml")
             if not os.path.exists(cur) or open(cur).read() != txt:
                 open(cur, "w").write(txt)
-        compile_failures.extend(cf for cf in build_ws(ws, prop, plan["batches"])
+        compile_failures.extend(cf for cf in build_ws(ws, prop, plan["batches"], big=plan.get("programs", 0) > 800)
                                 if (cf["batch"], cf["module"]) not in {(c["batch"], c["module"]) for c in compile_failures})
         for pc in cfg.get("proc_configs", [dict(VERIF_FIRST_POOL=16)]):
             if os.path.exists(res_path):
